@@ -39,6 +39,7 @@ let () =
   let univ : (string * n) list ref = ref [] in
   let state0 = ref (mk_state []) in
   let b = ref (block_start !env !state0) in
+  let pb = ref (block_start !env !state0) in
   let txs : msg list ref = ref [] in
   let oracle : (string, run_output) Hashtbl.t = Hashtbl.create 16 in
   let created : (string, n) Hashtbl.t = Hashtbl.create 16 in
@@ -137,6 +138,32 @@ let () =
       Printf.printf "b %s %s %d %s%s%s\n" (string_of_z fin.b_pool) (string_of_z fin.b_cum)
         (List.length fin.b_receipts) sum (if fin.b_panic then " PANIC" else "")
         (if agree then "" else " !stepwise-differs");
+      loop ()
+    | Some ["PB"] ->
+      (* run D: the proposal builder starts from the same state with a fresh pool *)
+      pb := block_start !env !state0; loop ()
+    | Some ["PT"; i] ->
+      let m = List.nth (List.rev !txs) (int_of_string i) in
+      missing := false;
+      let before = !pb in
+      let out = apply_transaction64 run create_address !env before.b_state before.b_pool m in
+      let after = propose_step64 run create_address !env before m in
+      pb := after;
+      let cls = (match out with
+          | Executed _ -> "ok" | Rejected (e, _, _) -> str_txerr e | Panicked -> "PANIC") in
+      Printf.printf "p %s %s %s %d %s%s\n" cls (string_of_z after.b_pool) (string_of_z after.b_cum)
+        (List.length after.b_receipts) (string_of_z (total (List.map snd !univ) after.b_state))
+        (if !missing then " !model-ran-vm-without-oracle" else "");
+      loop ()
+    | Some ["PR"; which] ->
+      (* run E: StateProcessor.Process on the executed transactions / on the whole block *)
+      let all = List.rev !txs in
+      let executed = List.filter (fun m -> List.exists (fun ((id, _), _) -> string_of_n id = string_of_n m.m_id) !b.b_receipts) all in
+      (match process_block64 run create_address !env !state0 (if which = "kept" then executed else all) with
+       | None -> Printf.printf "r rejected 0 0 -\n"
+       | Some f ->
+         Printf.printf "r ok %s %d %s%s\n" (string_of_z f.b_cum) (List.length f.b_receipts)
+           (string_of_z (total (List.map snd !univ) f.b_state)) (if f.b_panic then " PANIC" else ""));
       loop ()
     | Some l -> failwith ("bad line: " ^ String.concat " " l)
   in
